@@ -15,6 +15,7 @@
   Re-proved by `decide` on every run: writing the line and the newline in two Writes, writing
   before the lock, allocating a new mutex in `clone()`, dropping the `[:0]` … break this file.
 -/
+import Glb.Generated.StatusLoggerHandle
 import Glb.Generated.LoggerHandle
 import Glb.Generated.LoggerClone
 
@@ -61,5 +62,8 @@ theorem free_buffer_structure :
 
 theorem new_buffer_structure :
     newBufferBody = ["return bufferPool.Get().(*[]byte)"] ∧ freshBufferLenArg = "0" := by decide
+
+/-- the extractor of this area recognised the source as it is on this run (a refusal removes `ok`) -/
+theorem extractor_ok : Glb.Generated.StatusLoggerHandle.ok = () := rfl
 
 end Glb.Tie.LoggerHandle
